@@ -1,4 +1,5 @@
 """Encoding module."""
+import codecs
 import struct
 import time
 import io
@@ -100,6 +101,18 @@ class ResponseEncoder:
             self.oldhandler = request.handler
             request.handler = self
 
+    def _text_encoder(self, encoding):
+        """Return the ``encode`` method of a new incremental text encoder.
+
+        The str chunks of a body are pieces of one text. A codec that
+        writes a signature (utf-16, utf-32, utf-8-sig) or keeps a shift
+        state has to do so once per body, not once per chunk.
+        """
+        # Like str.encode(), refuse codecs which are no text encodings
+        # (rot13, base64, ...) with a LookupError.
+        ''.encode(encoding, self.errors)
+        return codecs.getincrementalencoder(encoding)(self.errors).encode
+
     def encode_stream(self, encoding):
         """Encode a streaming response body.
 
@@ -111,10 +124,17 @@ class ResponseEncoder:
         self.attempted_charsets.add(encoding)
 
         def encoder(body):
+            encode = None
             for chunk in body:
                 if isinstance(chunk, str):
-                    chunk = chunk.encode(encoding, self.errors)
+                    if encode is None:
+                        encode = self._text_encoder(encoding)
+                    chunk = encode(chunk)
                 yield chunk
+            if encode is not None:
+                tail = encode('', True)
+                if tail:
+                    yield tail
         self.body = encoder(self.body)
         return True
 
@@ -127,16 +147,23 @@ class ResponseEncoder:
             # A failed attempt must not use up a one-shot iterator:
             # the next charset has to see the whole body again.
             self.body = list(self.body)
+        encode = None
         body = []
-        for chunk in self.body:
-            if isinstance(chunk, str):
-                try:
-                    chunk = chunk.encode(encoding, self.errors)
-                except (LookupError, ValueError):
-                    # UnicodeError is a ValueError; so is the error for
-                    # a charset name with a NUL in it.
-                    return False
-            body.append(chunk)
+        try:
+            for chunk in self.body:
+                if isinstance(chunk, str):
+                    if encode is None:
+                        encode = self._text_encoder(encoding)
+                    chunk = encode(chunk)
+                body.append(chunk)
+            if encode is not None:
+                tail = encode('', True)
+                if tail:
+                    body.append(tail)
+        except (LookupError, ValueError):
+            # UnicodeError is a ValueError; so is the error for
+            # a charset name with a NUL in it.
+            return False
         self.body = body
         return True
 
